@@ -84,9 +84,9 @@ CFG = {
             "crossings on whole weld buckets; block streams alternate AddField / AddFieldParallel; 1/4 of the random shapes "
             "are marched three times (lower cutoff, same cutoff, judged call); single-field cases (constructors, CombineFields "
             "unions, lattices, random shapes) are also marched through Field.March and Field.Voxelize and compared with the "
-            "canvas where the world-unit weld of Field.March cannot interfere; `attribute` (once the findings are listed): "
+            "canvas where the world-unit weld of Field.March cannot interfere; `attribute`: "
             "two-attribute fields marched with MarchOnAttribute(Parallel) on a non-position attribute, alone and through "
-            "CombineFields / MirrorAxis / Subtract / Translate. Distinct by input; non-trivial = at least one output triangle",
+            "CombineFields / MirrorAxis / Subtract / Translate (cases that depend on Go's map order are built and judged four times); `addfieldparallel2`: random shapes and fields with two and three Float1 functions added through AddFieldParallel2. Distinct by input; non-trivial = at least one output triangle",
     "trusted": ["sign grid = implementation's own field functions re-evaluated by the harness at the positions and in the "
                 "accumulation order of addFloat1Range (canvas storage is unexported)",
                 "weld buckets (modeling.Vector3ToInt(position, 3)) of output vertices and of the crossing points are computed "
@@ -128,15 +128,8 @@ def main(argv):
     # Sphere(strength < 1) declares a domain smaller than the sphere: generated once the finding is listed
     if listed("march:constructor-domain-too-small"):
         extra += ["small-domains"]
-    # MarchOnAttribute(attribute != position) panics (fixes/C09-march-on-attribute-scale) and the combinators mix up the
-    # Float1 attributes of multi-attribute fields (fixes/C09-multi-attribute-closures): same gating
-    if listed("march:march-on-attribute-non-position"):
-        extra += ["attr"]
-        if listed("march:multi-attribute-closures"):
-            extra += ["attr-combinators"]
-    # AddFieldParallel2 samples the field with x and z exchanged (fixes/C09-addfieldparallel2-axes)
-    if listed("march:addfieldparallel2-axes-swapped"):
-        extra += ["addpar2"]
+    # the attribute / multi-attribute combinator / AddFieldParallel2 streams are unconditional (da2fa8f, 7eac22f, 913f893,
+    # 924b580 landed; keys listed as fixed)
     if extra:
         CFG["extra_args"] = extra
     return vlib.standard_check(CFG, argv)
